@@ -244,15 +244,23 @@ class CorrelationTyping(Contract):
     id = "C10.TextQueryBackend.convert_correlation_typing"
     target = f"{CB}:TextQueryBackend.convert_correlation_typing"
     props = ("C10",)
-    cases = ((), (1,), (2,), (1, 2), (1, 0, 1), "off")
-    assumed = ["templates opaque; 0..3 referenced rules with 0..2 queries (unrolled)"]
+    cases = ((), (1,), (2,), (1, 2), (1, 0, 1), "off", "nested")
+    assumed = ["templates opaque; 0..3 referenced rules with 0..2 queries (unrolled); nested: a referenced rule that is itself a correlation rule over two further rules"]
 
     def args(self, I, case):
         calls = []
         rr = []
-        for i, nq in enumerate(() if case == "off" else case):
+        for i, nq in enumerate(() if case == "off" else (1, 1) if case == "nested" else case):
             ref = mk_ref(I, i, named=(i != 1))
             qs = [I.fresh(f"r{i}q{j}", "str") for j in range(nq)]
+            if case == "nested" and i == 1:
+                # the second referenced rule is a correlation rule: its OWN query stands for it in the typing part, not the queries of the rules below it
+                inner = [mk_ref(I, 10 + j) for j in range(2)]
+                for j, ir in enumerate(inner):
+                    ir.fields["rule"].fields["get_conversion_result"] = NativeFn("get_conversion_result", lambda I2, a, k, j=j: [I2.fresh(f"inner{j}_query", "str")])
+                nested = SObj(I.E.index.lookup(f"{CORR}:SigmaCorrelationRule"), {"name": I.fresh("nested_name", "str"), "id": None, "referenced_rules": inner}, lazy=True)
+                I.ctx.assume(z3.Length(nested.fields["name"].t) > 0)
+                ref.fields["rule"] = nested
             ref.fields["rule"].fields["get_conversion_result"] = NativeFn("get_conversion_result", lambda I2, a, k, qs=qs: list(qs))
             ref.ghost["qs"] = qs
             rr.append(ref)
